@@ -57,6 +57,11 @@ def _ray3d_core(
         jsrc = np.searchsorted(x, xsrc, side="right") - 1
         ksrc = np.searchsorted(y, ysrc, side="right") - 1
 
+    # A ray that honors the grid cannot make more successive steps without
+    # crossing a grid line than it takes to cross the whole grid
+    nfree_max = int(dist3d(z[0], x[0], y[0], z[-1], x[-1], y[-1]) / stepsize) + 1
+    nfree = 0
+
     count = 1
     pcur = np.array([zend, xend, yend], dtype=np.float64)
     delta = np.empty(3, dtype=np.float64)
@@ -85,6 +90,8 @@ def _ray3d_core(
             pcur[2] = min(max(pcur[2], y[0]), y[-1])
 
             if fac < 1.0:
+                nfree = 0
+
                 # Grid magnetism: handle precision issues due to fac
                 for ix in range(3):
                     if np.abs(pcur[ix] - lower[ix]) < 1.0e-8:
@@ -109,6 +116,9 @@ def _ray3d_core(
                 if i == isrc and j == jsrc and k == ksrc:
                     break
 
+            else:
+                nfree += 1
+
         else:
             pcur -= delta
             pcur[0] = min(max(pcur[0], z[0]), z[-1])
@@ -118,10 +128,10 @@ def _ray3d_core(
             ray[count] = pcur.copy()
             count += 1
 
-        if count >= max_step:
+        if count >= max_step or nfree > nfree_max:
             break
 
-    if count >= max_step:
+    if count >= max_step or nfree > nfree_max:
         return ray, -2
 
     ray[count] = np.array([zsrc, xsrc, ysrc], dtype=np.float64)
